@@ -1284,7 +1284,7 @@ fn main() {
     );
     s.run_cases(
         "fs_conformance",
-        s.scale(1_500, 150_000),
+        s.scale(4_000, 400_000),
         || {
             let op = prop_oneof![
                 6 => (any::<u8>(), prop_oneof![Just(0u16), 1u16..40, 40u16..700], any::<u8>()).prop_map(|(key, len, fill)| fs::FsOp::Put { key, len, fill }),
@@ -1303,7 +1303,7 @@ fn main() {
         "fs_workloads",
         "workloads (push / flush / compact / reopen, <= 14 ops) on StreamingPersistence + Compactor over LocalFsObjectStore behind a fault layer: fault-free, then every call failing once (without effect; puts also half-written; puts, renames, deletes also after the effect); after every op the directory must recover through a plain LocalFs store, the manifest must name only valid objects, confirmed updates must be there",
     );
-    s.run_cases("fs_workloads", s.scale(40, 4_000), || workload(14), fs::check_fs_workload);
+    s.run_cases("fs_workloads", s.scale(100, 10_000), || workload(14), fs::check_fs_workload);
     fs::cleanup_root();
     s.finish();
 }
